@@ -20,6 +20,7 @@ import (
 
 	"verif/sim/model"
 	"verif/sim/vnet"
+	"verif/sim/zones"
 )
 
 // Result of one simulated run.
@@ -288,10 +289,17 @@ func (h *harness) build() {
 			if d.Doors != nil {
 				doors = append([]string{}, d.Doors...)
 			}
+			var tz *time.Location
+			if d.TZ != "" {
+				tz = zones.Load(d.TZ)
+			}
 			if d.Raw {
-				devs = append(devs, uhppote.Device{Name: d.Name, DeviceID: d.ID, Address: addr, Doors: doors, TimeZone: time.UTC, Protocol: d.Protocol})
+				if tz == nil {
+					tz = time.UTC
+				}
+				devs = append(devs, uhppote.Device{Name: d.Name, DeviceID: d.ID, Address: addr, Doors: doors, TimeZone: tz, Protocol: d.Protocol})
 			} else {
-				devs = append(devs, uhppote.NewDevice(d.Name, d.ID, addr, d.Protocol, doors, nil))
+				devs = append(devs, uhppote.NewDevice(d.Name, d.ID, addr, d.Protocol, doors, tz))
 			}
 		}
 		u := uhppote.NewUHPPOTE(
